@@ -3,8 +3,9 @@ Spec: SemTokens.tla (LSP relative encoding + decoder over a Positions document).
 MC: Decode(Encode(P)) = P, strictly increasing / non-overlapping / inside lines, on all documents <= n x all
 sorted single-line highlight lists <= k.  GEN: every such (document, highlights) with the array a conforming encoder
 must produce is replayed into glas' to_semantic_tokens through the hook and compared verbatim."""
-import json, os
-import vlib
+import json, os, shutil
+import vlib, lsp
+from checks import scope_common
 
 
 def replay_cases(out, cases, seed):
@@ -30,6 +31,82 @@ def replay_cases(out, cases, seed):
     out.cov["samples"] += summary["samples"]
 
 
+LEGEND = {"Module": 0, "Function": 1, "Constructor": 2}
+
+
+def lsp_projection(text, hl):
+    """(line, utf16 col, utf16 len, type) of each highlight, as a client would number them"""
+    res = []
+    b = text.encode()
+    for s, e, tag in hl:
+        before = b[:s].decode()
+        line = before.count("\n")
+        col = len(before.rsplit("\n", 1)[-1].encode("utf-16-le")) // 2
+        ln = len(b[s:e].decode().encode("utf-16-le")) // 2
+        res.append((line, col, ln, LEGEND[tag]))
+    return res
+
+
+def decode(data):
+    res, line, start = [], 0, 0
+    for i in range(0, len(data), 5):
+        dl, ds, ln, ty, _ = data[i:i + 5]
+        line += dl
+        start = start + ds if dl == 0 else ds
+        res.append((line, start, ln, ty))
+    return res
+
+
+def end_to_end(out, hl_path, seed):
+    """real programs (GleamGen, seeded layouts with non-ASCII comments) through the real server: the decoded
+    semanticTokens/full array must be the LSP projection of the analysis' highlight list; /range a sub-list"""
+    recs = [json.loads(l) for l in open(hl_path)]
+    root = vlib.workdir("c19-e2e")
+    open(os.path.join(root, "gleam.toml"), "w").write('name = "p"\nversion = "0.1.0"\n')
+    os.makedirs(os.path.join(root, "src"))
+    lib = scope_common_lib()
+    open(os.path.join(root, "src", "m2.gleam"), "w").write(lib)
+    sess = lsp.Session(root, stderr_path=os.path.join(root, "stderr.log"))
+    n = 0
+    try:
+        if sess.initialize() is None:
+            raise vlib.ToolError("server did not answer initialize")
+        for k, r in enumerate(recs):
+            path = os.path.join(root, "src", f"g{k}.gleam")
+            open(path, "w").write(r["text"])
+            sess.did_open(path, r["text"])
+            resp = sess.request("textDocument/semanticTokens/full", {"textDocument": {"uri": lsp.uri(path)}})
+            if resp is None or "error" in resp:
+                out.report({"what": "semanticTokens/full failed", "level": "server"}, {"text": r["text"], "response": resp})
+                continue
+            got = decode((resp["result"] or {}).get("data", []))
+            exp = lsp_projection(r["text"], r["hl"])
+            n += 1
+            if got != exp:
+                out.report({"what": "decoded tokens differ from the highlight list", "level": "server"},
+                           {"text": r["text"], "expected": exp, "got": got})
+            inc = all(a[:2] < b[:2] for a, b in zip(got, got[1:]))
+            if not inc:
+                out.report({"what": "tokens not strictly increasing", "level": "server"}, {"text": r["text"], "got": got})
+            # a range request over the second half of the lines
+            lines = r["text"].count("\n")
+            rr = sess.request("textDocument/semanticTokens/range", {"textDocument": {"uri": lsp.uri(path)},
+                              "range": {"start": {"line": lines // 2, "character": 0}, "end": {"line": lines + 1, "character": 0}}})
+            if rr is not None and "result" in rr:
+                sub = decode((rr["result"] or {}).get("data", []))
+                if [t for t in sub if t not in exp]:
+                    out.report({"what": "range tokens not among the full tokens", "level": "server"}, {"text": r["text"], "got": sub, "full": exp})
+    finally:
+        sess.close()
+    shutil.rmtree(root, ignore_errors=True)
+    return n
+
+
+def scope_common_lib():
+    from checks import c06
+    return c06.LIB
+
+
 def run(out, tier, seed):
     cfg = "SemTokens_q.cfg" if tier == "quick" else "SemTokens_t.cfg"
     r = vlib.tlc("SemTokens", cfg, workers=8, timeout=3000, coverage=(tier == "quick"), heap="8g")
@@ -39,10 +116,26 @@ def run(out, tier, seed):
     if len(cases) < 1000:
         raise vlib.ToolError("too few SemTokens cases")
     replay_cases(out, cases, seed)
+    # second half: which identifiers the analysis highlights (GleamGen / Typing programs) and the whole pipeline
+    main, _ = scope_common.programs(out, tier, seed)
+    mism, summary, _, _ = scope_common.observe(main, seed, "C19-hl", hl=True)
+    for r in mism:
+        if r["prop"] == "C19":
+            out.report(r["features"], r["detail"])
+    out.cov["evaluations"] += summary["programs"]
+    from checks import c09
+    tyc = vlib.tlc("Typing", "Typing_sim.cfg", workers=1, simulate=(80 if tier == "quick" else 3000), depth=4000, seed=seed, timeout=3000, name="c19-typing")
+    vlib.require_ok(tyc, "Typing simulation for C19")
+    out.add_tlc(tyc, "GEN Typing programs (function-typed locals)")
+    c09.run_ty(out, list(tyc.cases()), seed, "c19", "main", prop="C19")
+    n = end_to_end(out, os.path.join(vlib.WORK, "scope-C19-hl", "hl.ndjson"), seed)
+    out.cov["traces_validated_against_impl"] += n
     out.cov["exhaustive"] = True
     out.cov["rule"] = ("all documents over {a,nl,c2,c3,c4} within %s x all sorted non-overlapping single-line highlight lists "
                        "x 3 tags; the real encoder's array is compared with the specification's Encode(Project); "
-                       "non-trivial = document has a line feed or multi-byte character" % cfg)
+                       "non-trivial = document has a line feed or multi-byte character; plus the highlight set of every GleamGen / Typing program "
+                       "(function references, constructors, function-typed locals) and ~400 programs through the real server "
+                       "(semanticTokens/full and /range decoded by the LSP rule)" % cfg)
     out.assumptions += ["highlight ranges come from the analysis as single-line identifier ranges (checked separately on programs)"]
 
 
